@@ -5,8 +5,9 @@
 
       - [seed]    : the per-process / per-thread random keys of std's [RandomState];
       - [history] : whatever earlier expansions in the same process could have left behind in global
-                    mutable state (statics, thread-locals, lazies, ...), or the environment
-                    (time, env vars, pid, addresses) - one opaque list.
+                    mutable state (statics, thread-locals, lazies, ...), the environment
+                    (time, env vars, pid, addresses), and WHERE the item sits in its file (byte positions
+                    of its tokens, i.e. what precedes it) - one opaque list.
 
     Whether an expander can *see* them is decided by FACTS about the source text, which the translator
     tools/lib/c19_hashfacts.py re-extracts from /repo/impl/src on every run into Gen/HashFacts.v:
@@ -63,7 +64,10 @@ Record alias_def := {
 Inductive state_kind :=
   SStatic | SThreadLocal | SLazy | SOnce | SAtomic | STime | SEnv | SProcessId | SPointerFmt
 | SRandom | SFs | SAddress
-| SInteriorMut.   (* RefCell / Cell / Mutex / RwLock / Once* / Lazy* inside a static / thread_local! / lazy_static! *)
+| SInteriorMut    (* RefCell / Cell / Mutex / RwLock / Once* / Lazy* inside a static / thread_local! / lazy_static! *)
+| SDebugFmt       (* `{:?}` in the macro's own format!/write!/panic!: Debug of syn / proc_macro2 values prints byte positions *)
+| SSpanRead       (* .start() / .end() / .byte_range() / .source_text() / .line() ... of a span *)
+| SOrderKey.      (* sort / dedup / cmp / min / max keyed on Debug output, spans or addresses *)
 
 Record state_site := {
   s_file : string;
